@@ -131,6 +131,10 @@ var templates = []func(u string) string{
 		return "rec(keys({\"a\": base}))\nrec(range(3))\nrec(range(1, 7, 2))\nrec(typeOf(base))\nrec(kindOf(\"s\"))\nrec(toString(base))\nrec(toInt(\"4\") + base)\nrec(toFloat(\"1.5\"))\nrec(toBool(\"true\"))\nrec(defined(\"base\"))\nrec(defined(\"nope" + u + "\"))\nzz" + u + " = 1\nrec(defined(\"zz" + u + "\"))\nrec(toIntSlice([1, base]))\nrec(toStringSlice([\"a\"]))"
 	},
 	func(u string) string {
+		// absolute probes: results every environment must get whatever ran before in this process
+		return "must(defined(\"base\"))\nmust(!defined(\"nope" + u + "\"))\nyy" + u + " = base\nmust(defined(\"yy" + u + "\"))\nr" + u + " = range(4)\nr" + u + "[0] = 99\nmust(range(4)[0] == 0)\nmust(len(range(4)) == 4)\nk" + u + " = keys({\"a\": 1})\nk" + u + "[0] = \"zz\"\nmust(keys({\"a\": 1})[0] == \"a\")\nt" + u + " = toIntSlice([1, 2])\nt" + u + "[0] = 7\nmust(toIntSlice([1, 2])[0] == 1)\nmust(toString(base) == \"\" + base)\nmust(typeOf(base) == \"int64\")\nmust(import(\"strings\").ToUpper(\"q\") == \"Q\")\nmust(import(\"strconv\").Itoa(7) == \"7\")"
+	},
+	func(u string) string {
 		return "m" + u + " = import(\"math\")\nrec(m" + u + ".Abs(0 - base))\nsc" + u + " = import(\"strconv\")\nrec(sc" + u + ".Itoa(base))\nst" + u + " = import(\"strings\")\nrec(st" + u + ".Join([\"a\", \"b\"], \"-\"))\nrec(st" + u + ".Repeat(\"x\", 3))\nf" + u + " = import(\"fmt\")\nrec(f" + u + ".Sprintf(\"%v-%v\", base, ow))\nso" + u + " = import(\"sort\")\nl" + u + " = [3, 1, 2]\nso" + u + ".Slice(l" + u + ", func(i, j) { return l" + u + "[i] < l" + u + "[j] })\nrec(l" + u + ")"
 	},
 	func(u string) string {
@@ -334,6 +338,13 @@ func mkEnv(i int, out *runOut, mu *sync.Mutex) *env.Env {
 	// (comparing with a solo run cannot see a leak that is the same in every run)
 	id := 100000 + envCounter.Add(1)
 	e.Define("envid", id)
+	e.Define("must", func(ok bool) {
+		if !ok {
+			mu.Lock()
+			out.cross = fmt.Sprintf("environment %d: a check that holds in a pristine process failed (must(false)), after trace %v", i, out.trace)
+			mu.Unlock()
+		}
+	})
 	e.Define("recid", func(v interface{}) {
 		if v != interface{}(id) {
 			mu.Lock()
@@ -610,6 +621,14 @@ func (Prop) Run(t *testing.T, c *harness.Case, verbose bool) *harness.Result {
 	if d := dumpTree(shared); d != dump0 {
 		return fail("tree-changed", "executing the tree concurrently changed it: "+firstDiff(dump0, d))
 	}
+	if other, perr := parser.ParseSrc("q = [[7, 8], [9]]\nq[0][0]++\nfunc zz(a) { return a + 1.5 }\nzz(\"s\")\n" + src); perr == nil && other != nil {
+		if d := dumpTree(shared); d != dump0 {
+			return fail("tree-changed", "parsing another source changed the shared tree: "+firstDiff(dump0, d))
+		}
+	}
+	if again, perr := parser.ParseSrc(src); perr != nil || dumpTree(again) != dump0 {
+		return fail("parse-not-repeatable", "parsing the same source again gives a different tree (positions included): the parser keeps state between calls")
+	}
 	if pk := packagesDigest(); pk != pk0 {
 		return fail("packages-changed", "env.Packages / env.PackageTypes changed during execution")
 	}
@@ -675,7 +694,14 @@ func RunReal(c *harness.Case) string {
 				mode = 2 // on real goroutines always share: that is where a per-Options scratch area would race
 			}
 			for rep := 0; rep < 3; rep++ {
-				o := execute(shared, i, context.Background(), mode)
+				tree := shared
+				if rep == 1 {
+					// concurrent parses: the parser must not keep state between calls
+					if own, perr := parser.ParseSrc(src); perr == nil {
+						tree = own
+					}
+				}
+				o := execute(tree, i, context.Background(), mode)
 				if o.paniced != "" {
 					msgs[i] = o.paniced
 				}
